@@ -22,6 +22,8 @@ def scenario(driver, variant):
         sc.d(b'/W/DEST')
     sc.opts = ['r']
     sc.extra = ['--fsync', '--block-size', '2048'] + (['--ownership'] if variant == 'owner' else [])
+    if variant == 'noprogress':          # no progress display: errors must still reach the exit status
+        sc.extra = ['--fsync', '--no-progress']
     sc.paths = [b'S', b'DEST']
     sc.variant = variant
     return sc
@@ -85,7 +87,7 @@ def run(ctx):
     sites_hit = {}
     with core.Scratch('c04') as base:
         for driver in ('parfile', 'parblock'):
-            for variant in (('fresh', 'overwrite', 'into') if ctx.quick else ('fresh', 'overwrite', 'into', 'owner')):
+            for variant in (('fresh', 'overwrite', 'into', 'noprogress') if ctx.quick else ('fresh', 'overwrite', 'into', 'owner', 'noprogress')):
                 sc = scenario(driver, variant)
                 o0 = treerun.run(base, sc, trace=True)
                 if o0.res.cls != '0' or correct(sc, o0):
